@@ -176,7 +176,18 @@ class Quantity:
         return Quantity(self.magnitude.value[key], self.baseunits)
         
     def __array_ufunc__(self, ufunc, method, *inputs, **kwargs):
-        if ufunc==np.sqrt:
+        if ufunc in (np.add, np.subtract, np.multiply, np.divide) and len(inputs)==2 and not isinstance(inputs[0], Quantity):
+            # NumPy number or array on the left: ndarray.__op__ arrives here instead of the reflected operator
+            left = Quantity(inputs[0])
+            if ufunc==np.add:
+                return left + inputs[1]
+            elif ufunc==np.subtract:
+                return left - inputs[1]
+            elif ufunc==np.multiply:
+                return left * inputs[1]
+            else:
+                return left / inputs[1]
+        elif ufunc==np.sqrt:
             return Quantity(ufunc(inputs[0].magnitude.value), inputs[0].baseunits/2)
         elif ufunc==np.cbrt:
             return Quantity(ufunc(inputs[0].magnitude.value), inputs[0].baseunits/3)
